@@ -199,9 +199,9 @@ def run_case(case):
         pr["environment_variable_RUST_BACKTRACE"] = 1
     if "--profile" in (env.get("flags") or []) and env["mode"] == "run":
         # the profile report is appended to stdout after the program ended; it is not program output
-        cut = out.find("\nRuntime Profile:")
-        if cut >= 0:
-            out = out[:cut].rstrip("\n") + "\n" if out[:cut].strip("\n") else ""
+        stripped = core.strip_profile(out)
+        if stripped != out:
+            out = stripped
             pr["profile_report_stripped"] = 1
     err = core.text(p["err"]) if env["streams"] == "pipes" else out
 
